@@ -321,3 +321,12 @@ Theorem C14_checker_class2tokens :
        Forall2 (fun o c => o = gap <-> is_gap_class c = true) out classes))).
 Proof. exact c2t_okb_spec. Qed.
 Print Assumptions C14_checker_class2tokens.
+
+(* the checker behind bit 5 ("the call modified the caller's list"): equality of the argument
+   list read back after the calls with the copy taken before.  The Gallina models are functions
+   of the VALUES of their arguments (a second evaluation on the same tokens is the same term), so
+   aliasing can only be observed, and is observed, on the implementation side. *)
+Theorem C14_checker_argument_unchanged :
+  forall before after : list token, unchangedb before after = true <-> before = after.
+Proof. exact unchangedb_spec. Qed.
+Print Assumptions C14_checker_argument_unchanged.
